@@ -428,7 +428,18 @@ fn edit(doc: &str, at: u16, what: u16, kind: u8) -> String {
     let pos = (at as usize * (chars.len() + 1)) >> 16;
     let tok = JSON_ALPHABET[(what as usize * JSON_ALPHABET.len()) >> 16];
     let mut out: String = chars[..pos.min(chars.len())].iter().collect();
-    match kind % 5 {
+    match kind % 6 {
+        5 => {
+            // flip the ASCII case of the letter at or after pos (true/True, \u/\U, e/E, \n/\N, hex digits)
+            match chars.iter().enumerate().skip(pos).find(|(_, c)| c.is_ascii_alphabetic()) {
+                Some((i, c)) => {
+                    out.extend(chars[pos..i].iter());
+                    out.push(if c.is_ascii_lowercase() { c.to_ascii_uppercase() } else { c.to_ascii_lowercase() });
+                    out.extend(chars[i + 1..].iter());
+                }
+                None => out.extend(chars[pos.min(chars.len())..].iter()),
+            }
+        }
         0 => {
             // delete
             if pos < chars.len() {
@@ -471,7 +482,7 @@ pub fn run(ctx: &mut Ctx) {
         for s in [
             "01", "-", "1.", ".5", "1e", "1e+", "-01", "+1", "0x10", "1.e3", "[1,]", "[,1]", "[1,,2]", "{\"a\":1,}", "{,}", "{\"a\" 1}", "{\"a\":}", "{a:1}", "\"\u{0}\"", "\"\u{1f}\"",
             "\"\t\"", "\"\\x\"", "\"\\u12\"", "\"\\u12G4\"", "\"abc", "tru", "nul", "True", "[", "]", "{", "[1", "1 2", "1,", "\u{a0}1", "\u{feff}1", "", " ", "\"\\\"", "'a'", "[1]]", "{}{}", "nullx",
-            "0", "-0", "0.0", "1E5", "1e-0", "\"\u{7f}\"", "\"\\u0000\"", " \t\r\n[ ] \n", "{\"\":{\"\":[]}}", "\"\\/\"",
+            "0", "-0", "0.0", "1E5", "1e-0", "\"\u{7f}\"", "\"\\u0000\"", " \t\r\n[ ] \n", "{\"\":{\"\":[]}}", "\"\\/\"", "\"\\U0041\"", "\"\\N\"", "\"\\u00e9\"", "\"\\u00E9\"", "NULL", "FALSE", "1E+2", "\"\\B\"",
         ] {
             if let Err(f) = check_doc(ctx, s, "catalogue", false) {
                 ctx.report(f);
@@ -488,7 +499,7 @@ pub fn replay(case: &Value) -> Result<(), Fail> {
 
 pub const DEF: CheckDef = CheckDef {
     id: "C18",
-    rule: "(a) documents generated from RFC 8259's ABNF (all value kinds, nesting <= 6 levels / 40 nodes, every escape form, numbers from every branch of the number production, whitespace from the four legal characters at every legal gap); (b) three one-edit neighbours of each (delete / insert / replace a token from JSON's alphabet incl. control characters, other Unicode spaces, signs, or truncate); (c) random token soup over JSON's alphabet; (d) a fixed catalogue of classic near-misses. Oracle: a hand-written RFC 8259 recursive-descent recogniser returning the value tree with byte spans; JsonParser::parse(Rule::json, s) must accept iff it does, and on acceptance the token stream must equal json(value(kind...)..., EOI) with one pair per value/object/pair/array/string/number/bool/null and exact spans. Non-trivial = accepted document with nesting >= 2 and an escape or exponent, or a rejected document one edit away from an accepted one; distinct = distinct input string.",
+    rule: "(a) documents generated from RFC 8259's ABNF (all value kinds, nesting <= 6 levels / 40 nodes, every escape form, numbers from every branch of the number production, whitespace from the four legal characters at every legal gap); (b) three one-edit neighbours of each (delete / insert / replace a token from JSON's alphabet incl. control characters, other Unicode spaces, signs; truncate; flip the case of one letter); (c) random token soup over JSON's alphabet; (d) a fixed catalogue of classic near-misses. Oracle: a hand-written RFC 8259 recursive-descent recogniser returning the value tree with byte spans; JsonParser::parse(Rule::json, s) must accept iff it does, and on acceptance the token stream must equal json(value(kind...)..., EOI) with one pair per value/object/pair/array/string/number/bool/null and exact spans. Non-trivial = accepted document with nesting >= 2 and an escape or exponent, or a rejected document one edit away from an accepted one; distinct = distinct input string.",
     assumptions: &["the recogniser in harness/pv/src/c18.rs is the reading of RFC 8259 (inputs are Rust &str, so invalid UTF-8 is out of scope)"],
     floor: |t| t.pick(20_000, 200_000),
     shards: |_| 16,
